@@ -137,6 +137,7 @@ func (ra *RestAgent) receiveBundleMessage(msg BundleMessage) {
 			bundles = append(val.([]bpv7.Bundle), msg.Bundle)
 		}
 
+		verifPoint("rest.deliver.loaded")
 		ra.mailbox.Store(uuid, bundles)
 
 		log.WithFields(log.Fields{
@@ -220,6 +221,7 @@ func (ra *RestAgent) handleFetch(w http.ResponseWriter, r *http.Request) {
 		log.WithField("uuid", fetchRequest.UUID).Info("REST client fetches bundles")
 		fetchResponse.Bundles = val.([]bpv7.Bundle)
 
+		verifPoint("rest.fetch.loaded")
 		ra.mailbox.Delete(fetchRequest.UUID)
 	} else if !ok {
 		log.WithField("uuid", fetchRequest.UUID).Debug("REST client has no new bundles to fetch")
